@@ -12,6 +12,18 @@ CLAIMED = {
         note="Assumes text/template, go/format, gob, gzip, sort, fmt deterministic; field-based heap abstraction; go/ssa + VTA call graph trusted. Does not decide library determinism.",
         technique="static analysis: SSA loop-idiom classification + field-based order-taint (explicit and control-dependence flows) to file/exit sinks",
         design="§4 C11, §3 E5"),
+    "C15": dict(
+        level="translation_validation",
+        text="The checked-in LR tables of gocc's own parser are validated against spec/gocc2.ebnf: the checker reads the specification with its own reader, builds the canonical LR(1) automaton with its own construction and walks it in lock-step with tables.go (all state x token and state x nonterminal cells, productions with head/body/length/action text), requiring a bijection of states. Error recovery must be inert (R15.3). Cell-wise agreement up to state renaming of two deterministic automata implies equal token languages and reduction sequences, which is exactly the property; no finite set of test inputs can show that.",
+        note="Trusted: go/parser+go/types reading tables.go, the checker's BNF reader and LR(1) construction (checker/lr.go). The driver loop (Parser.Parse) is covered by R15.2 once the transfer-table engine lands; until then it is read as the standard LR driver.",
+        technique="static translation validation: independent canonical LR(1) construction vs checked-in tables (lock-step bisimulation over composite literals), SSA control-dependence check of the recovery guard",
+        design="§4 C15, §3 E7"),
+    "C17": dict(
+        level="other",
+        text="Effect analysis of the generated code for all grammars at once: gocc's 17 template constants are instantiated with placeholder tables in every debug/zip variant (9 packages) and every function is analysed on SSA for writes (store, map update, append, copy, clear, delete, hand-over to a writing external function) to memory reachable from package-level variables outside init, with interprocedural binding of parameters, returns, closures, sealed-interface calls and spilled value receivers. Plus: in-place editing callees get fresh memory (R17.2); no unsafe/reflect/sync imports (R17.3). Absence of shared writes is what makes independent instances race-free in every interleaving.",
+        note="Assumes Go's init-before-use guarantee; user action code / Scanner / Context out of scope; read-only allowlist for stdlib callees; placeholder tables have the shape of real tables.",
+        technique="static effect analysis (global-derived address taint on go/ssa) over the instantiated templates",
+        design="§4 C17, §3 E1/E4"),
 }
 
 NA_REASON_PENDING = "check not built yet in this round (design in DESIGN.md §4); no claim is made until the rule set exists and passes its mutants"
